@@ -195,17 +195,22 @@ class CDctx:
     def set_contig(self, size):
         self.contig = Buf(size, data=fillpat(size, 1)); self.cpos = 0
         self.keep.append(self.contig)
+    def eff_cap(self, cap):
+        if self.contig is not None:
+            return max(0, min(cap, self.contig.n - self.cpos))
+        return cap
     def decompress(self, src, cap, dstnull=False, skip=False, stable=False, dict_=None, salt=0):
         lib = self.lib
         sb = Buf(len(src), data=src)
         ssz = c_size_t(len(src))
         guard_bad = None
+        tail0 = None
         if dstnull:
             db = None; dp = None; dsz = c_size_t(0)
         elif self.contig is not None:
-            room = self.contig.n - self.cpos
-            cap = min(cap, room)
+            cap = self.eff_cap(cap)
             dp = self.contig.p + self.cpos; dsz = c_size_t(cap); db = None
+            tail0 = self.contig.bytes(min(256, self.contig.n - self.cpos - cap), self.cpos + cap)
         else:
             db = Buf(cap, data=fillpat(cap, salt)); dp = db.p; dsz = c_size_t(cap)
         opts = DOpts(1 if stable else 0, 1 if skip else 0, 0, 0)
@@ -222,8 +227,8 @@ class CDctx:
             img = b""
         elif self.contig is not None:
             img = self.contig.bytes(cap, self.cpos)
-            tail = self.contig.bytes(min(64, self.contig.n - self.cpos - cap), self.cpos + cap)
-            if tail != fillpat(self.contig.n, 1)[self.cpos + cap:self.cpos + cap + len(tail)]:
+            tail = self.contig.bytes(len(tail0), self.cpos + cap)
+            if tail != tail0:
                 guard_bad = "bytes beyond the given capacity were modified"
             if produced <= cap:
                 self.cpos += produced
@@ -292,6 +297,28 @@ def spec_frame(orc, data, dict_=b"", skip=False):
         return None
     return int(a[1]), a[2], int(a[-1].split("=")[1])
 
+def has_offset0(blk):
+    """some sequence of the block has match offset 0"""
+    i = 0; n = len(blk)
+    while i < n:
+        tok = blk[i]; i += 1
+        ll = tok >> 4
+        if ll == 15:
+            while i < n:
+                b = blk[i]; i += 1; ll += b
+                if b != 255: break
+        i += ll
+        if i + 2 > n:
+            return False
+        if blk[i] == 0 and blk[i + 1] == 0:
+            return True
+        i += 2
+        if (tok & 15) == 15:
+            while i < n:
+                b = blk[i]; i += 1
+                if b != 255: break
+    return False
+
 # ------------------------------------------------------------------ lock-step driver
 CHUNKINGS = ["whole", "one", "hdr", "rand", "hint"]
 
@@ -328,6 +355,8 @@ class Session:
     def call(self, src, cap, dstnull=False, skip=False, stable=False, dict_=None, dictbuf=None, salt=0):
         """one LZ4F_decompress call on both sides.  Returns (kind, info):
         kind 'ok' -> info = (consumed, produced bytes, ret); 'corr' / 'prop' -> info = description"""
+        if not dstnull:
+            cap = self.cd.eff_cap(cap)
         c_cons, c_prod, c_ret, img, guard = self.cd.decompress(src, cap, dstnull, skip, stable, dictbuf if dictbuf is not None else dict_, salt)
         m = self.md.decompress(src, cap, dstnull, skip, dict_)
         self.calls += 1
@@ -349,8 +378,35 @@ class Session:
         elif md5(img[:m["outlen"]]) != m["outmd5"]:
             problems.append(("corr", "call %d: output bytes differ (%d bytes)" % (self.calls, m["outlen"])))
         if problems:
+            if problems[0][0] == "corr":
+                cls = self.classify_blockdec()
+                if cls:
+                    return "blockdec", cls
             return problems[0][0], problems[0][1]
         return "ok", (c_cons, img[:c_prod], c_ret)
+    def classify_blockdec(self):
+        """Did the model (block decoder = spec_decode) and liblz4's block decoder disagree on a block decoded
+        in the last call?  'endcond': the specification's sequence semantics accepts, liblz4 refuses (blocks
+        violating the end-of-block conditions: outside what C05 promises); 'F5': liblz4 accepts a block with a
+        match offset 0 (known finding F5); anything else: None (a real disagreement)."""
+        a = self.orc.ask("bdlog").split()
+        n = int(a[0])
+        st = self.md.state()
+        maxb = int(st.split("maxBlock=")[1].split()[0])
+        for i in range(n):
+            hist = bytes.fromhex(a[1 + 3 * i]) if a[1 + 3 * i] != "-" else b""
+            blk = bytes.fromhex(a[2 + 3 * i]) if a[2 + 3 * i] != "-" else b""
+            specok = a[3 + 3 * i] == "1"
+            sb = Buf(len(blk), data=blk); db = Buf(maxb); hb = Buf(len(hist), data=hist)
+            r = self.lib.decompress_safe_usingDict(sb.p, db.p, len(blk), maxb, hb.p, len(hist))
+            sb.free(); db.free(); hb.free()
+            if (r >= 0) != specok:
+                if specok:
+                    return "endcond"
+                if has_offset0(blk):
+                    return "F5"
+                return None
+        return None
     def free(self):
         self.cd.free(); self.md.free()
 
